@@ -284,6 +284,16 @@ def K1b():
     return f"(= (tri a b a) 3) is stored / written back as {got}" if got != ["(= (tri a b a) 3.0)"] else None
 
 
+def F23():
+    """a well-typed fluent with a repeated argument is rejected: the argument types go through a dict keyed by the argument names"""
+    dom = KDOMAIN.replace("(dist ?x - top ?y - top)", "(dist ?x - top ?y - top) (tri2 ?x - sub ?y - sub ?z - mid)")
+    try:
+        parse(dom, PROBLEM.replace("(= (dist a b) 3)", "(= (tri2 s s m) 3)"))
+    except AssertionError:
+        return "(= (tri2 s s m) 3) with (tri2 ?x - sub ?y - sub ?z - mid), s - sub, m - mid is rejected (AssertionError): positions shift when an argument repeats"
+    return None
+
+
 def K2():
     d, p = parse(KDOMAIN, PROBLEM.replace("(p a) ", ""))
     s0 = init_state(p)   # neither (p a) nor (q a) holds
@@ -338,7 +348,7 @@ def K9():
 
 
 KNOWN = [K1, K1b, K2, K5, K7, K8, K9]
-ALL = [F1, F2, F3, F4, F6, F7, F9, F10, F11, F12, F13, F14, F15, F17, F18, F19, F20, F21, F22]
+ALL = [F1, F2, F3, F4, F6, F7, F9, F10, F11, F12, F13, F14, F15, F17, F18, F19, F20, F21, F22, F23]
 
 
 def main():
